@@ -9,7 +9,8 @@ b) both rotation sites: awaited PassiveBufferSet::add_from completes before mem:
    FlushManager::queue_for_flush registers the segment as in-flight before sending it to the flush worker.
 c) flush task: the passive buffer is cleared (clear_and_complete / MemTable::flush) only after verify_with_retry == true and after the segment id is published in segment_ids;
    the InflightGuard is not dropped before publication.
-d) scan reaches all three sources: passive snapshot (PassiveBufferSet::non_empty), in-flight snapshot (InflightSegments::snapshot) and the active memtable / segment flows.
+d) scan reaches the sources that together always hold an applied event: passive snapshot (PassiveBufferSet::non_empty), the active memtable and the segment flows over the live list (the in-flight merge is reported, not required: a passive buffer is released only after its segment is in the live list, C03.c).
+j) aggregates: an event of a flushing memtable is held by two scanned sources (passive buffer; in-flight / published segment); selections drop the second copy by event id (e), aggregates would need ONE de-duplicating fold over both flows - two per-flow AggregateOps whose partials are added count it twice.
 e) response writers emit a row only on the true edge of try_accept_row; try_accept_row consults seen_ids before any offset/limit accounting.
 g) MemTableSource::run visits every passive buffer handed to it: in both loops over passive_memtables each iteration reaches the row-collection call before the next iteration
    (no skip of a busy buffer); no try_lock/try_read/try_write is used by engine::core::read code reachable from scan.
@@ -19,8 +20,8 @@ i) flow accounting cannot kill a stream: in FlowMetrics no *unsigned* atomic cou
 f) run_worker_loop awaits on_store inline (no spawn) before the next recv.
 Not decided: the window between publication and release of the passive copy (cross-task atomicity), aggregates not being de-duplicated.
 """
-FLOOR = 13
-REQUIRED = ["C03.a", "C03.b1", "C03.b2", "C03.b3", "C03.c", "C03.d", "C03.e1", "C03.e2", "C03.f", "C03.g", "C03.h", "C03.i"]
+FLOOR = 14
+REQUIRED = ["C03.a", "C03.b1", "C03.b2", "C03.b3", "C03.c", "C03.d", "C03.e1", "C03.e2", "C03.f", "C03.g", "C03.h", "C03.i", "C03.j"]
 FLUSH_TASK = "engine::core::write::flush_worker::FlushWorker::run::{closure#0}::{closure#0}"
 
 
@@ -142,9 +143,11 @@ def run(ctx):
         }
         bad = []
         for nm, k in need.items():
-            if k not in cg.nodes:
+            if k not in cg.nodes and nm != "in-flight snapshot":
                 raise AnchorMissing(k)
-            if k not in seen:
+            if k not in seen and nm == "in-flight snapshot":
+                inst.sites.append("in-flight segments are not merged into the scan list (not needed: a passive buffer is released only after its segment is in the live list)")
+            elif k not in seen:
                 bad.append(("source-unreachable:%s" % nm, "scan no longer reaches the %s (%s)" % (nm, k), None))
             else:
                 inst.sites.append("%s via %s" % (nm, " -> ".join(norm_path(x).split("::")[-2] + "::" + norm_path(x).split("::")[-1] for x in cg.chain(seen, k)[-4:])))
@@ -171,7 +174,7 @@ def run(ctx):
         one(ex, r"FlowBuilders::memtable_flow$")
         one(ex, r"FlowBuilders::segment_flow$")
         return bad
-    ctx.run("C03.d", "K4 REACH", "engine::query::streaming::scan", "a read consults active memtable, passive buffers, in-flight and published segments", d)
+    ctx.run("C03.d", "K4 REACH", "engine::query::streaming::scan", "a read consults active memtable, passive buffers and published segments", d)
 
     def writer(name):
         def f(inst):
@@ -363,3 +366,33 @@ def run(ctx):
             raise AnchorMissing("no pending-counter decrement found in FlowMetrics")
         return bad
     ctx.run("C03.i", "K4 EFFECT", "FlowMetrics", "stream accounting cannot panic a forwarder task", i_)
+
+    def j_(inst):
+        """While a memtable is being flushed its events are in the passive buffer AND (once written) in the in-flight / freshly published segment. Selections drop the
+        second copy by event id in the response writer (C03.e); an aggregate has no such stage after the per-flow folds, so either the scan list must not contain a
+        segment whose passive buffer is still scanned, or the memtable flow and the segment flow must fold into ONE de-duplicating aggregate."""
+        cg = CallGraph(F)
+        roots = [k for k in cg.nodes if norm_path(k).startswith("engine::query::scan::scan")]
+        seen = cg.reachable(roots)
+        infl = "engine::core::segment::inflight::InflightSegments::snapshot"
+        merged = infl in cg.nodes and infl in seen
+        ops = {}
+        for fn in ("build_memtable_flow", "build_segment_stream", "build_segment_flow"):
+            try:
+                b = F.fn("shard_pipeline::" + fn)
+            except AnchorMissing:
+                continue
+            n = len(b.find_calls(r"AggregateOp::new$"))
+            if n:
+                ops[fn] = n
+        inst.sites.append("in-flight segments merged into the scan list: %s" % merged)
+        inst.sites.append("per-flow AggregateOp constructions: %s" % ops)
+        if not ops:
+            raise AnchorMissing("AggregateOp::new in shard_pipeline")
+        bad = []
+        two_folds = len(ops) >= 2
+        # publication precedes passive release (C03.c), so even without the in-flight merge there is a window with two copies; the merge widens it to the whole write
+        if two_folds:
+            bad.append(("aggregate-folds-two-copies", "the memtable flow and the segment flow each fold into their own AggregateOp (%s) whose partials are added: while a rotated memtable is still in its passive buffer and its segment is %s, COUNT / TOTAL see every event of it twice" % (sorted(ops), "already scanned as in-flight or published" if merged else "published"), None))
+        return bad
+    ctx.run("C03.j", "K11 SIB", "shard_pipeline: memtable flow vs segment flow (aggregates)", "an aggregate folds each event once although two sources hold it during a flush", j_)
